@@ -10,7 +10,8 @@ class CustomFault(RuntimeError):
 
 
 EXC = {'ValueError': ValueError, 'KeyError': KeyError, 'Custom': CustomFault}
-ACTIONS = ['collect', 'sum', 'reduce', 'count', 'foreach', 'fold', 'countByValue']
+ACTIONS = ['collect', 'sum', 'reduce', 'count', 'foreach', 'fold', 'countByValue', 'toLocalIterator', 'groupByKey', 'zipWithIndex',
+           'distinct']
 LAZY = ['take', 'first', 'isEmpty']
 
 
@@ -167,6 +168,14 @@ class C04(Prop):
                 res = sum(seen) if not follow else sum(seen)
             elif act == 'countByValue':
                 res = sum(k * c for k, c in rdd.countByValue().items())
+            elif act == 'toLocalIterator':
+                res = sum(rdd.toLocalIterator())
+            elif act == 'groupByKey':       # a shuffle: the partitions are pulled through toLocalIterator
+                res = sum(sum(vs) for _, vs in rdd.map(lambda x: (x % 2, x)).groupByKey().collect())
+            elif act == 'zipWithIndex':
+                res = sum(x for x, _ in rdd.zipWithIndex().collect())
+            elif act == 'distinct':
+                res = sorted(rdd.distinct().collect())
             elif act == 'take':
                 res = rdd.take(1000)
             elif act == 'first':
@@ -223,6 +232,8 @@ class C04(Prop):
                 vs = w['done']
                 act = j['action']
                 exp = {'collect': vs, 'sum': sum(vs), 'reduce': sum(vs), 'fold': sum(vs), 'count': 2 * len(vs),
+                       'toLocalIterator': sum(vs), 'groupByKey': sum(vs), 'zipWithIndex': sum(vs),
+                       'distinct': sorted({x for v in vs for x in (v - 1, 1)}),
                        'foreach': None, 'countByValue': sum(vs), 'take': [x for v in vs for x in (v - 1, 1)],
                        'first': (vs[0] - 1) if vs else None, 'isEmpty': False}[act]
                 if act == 'foreach':        # returns nothing; side effects of failed attempts are not "the result"
